@@ -230,7 +230,7 @@ Proof.
     - pose proof (decimal_adv cur) as D.
       destruct (decimal cur) as [[n q]|e q| | |]; cbn [pbind padv] in *; [ | exact D | exact I | contradiction | contradiction].
       destruct (hd_is_not q close && hd_is_not q 45); [exact D|].
-      destruct ((if ct_slot tb n then n else -1) =? 0); exact D.
+      match goal with |- padv (if ?b then _ else _) _ => destruct b end; exact D.
     - destruct (is_word_char ch).
       + pose proof (scan_word_len' is_word_char to_lower cur) as W. destruct (scan_word is_word_char cur) as [nm q]. cbn [snd] in W.
         destruct (hd_is_not q close && hd_is_not q 45); exact W.
